@@ -136,6 +136,13 @@ def zeros_like(x):
     return zeros(x.shape, x.dtype)
 
 
+def ones_like(x):
+    _use("ones_like")
+    if isinstance(x, AMat) and x.ndim == 1:
+        return ones(x.shape, x.dtype)
+    raise Unsupported("ones_like of a matrix")
+
+
 def ones(shape, dtype, device=None):
     _use("ones")
     if isinstance(shape, (int, SInt)):
